@@ -166,6 +166,14 @@ func newHist(id int, mode string, r *gen.R, tr *gen.Trace) *Hist {
 			}
 			v := nodesTypes.Validator{Address: k.Addr, PublicKey: k.Pub, Status: sdk.Staked, Chains: []string{"0001"}, ServiceURL: "https://n.example:443",
 				StakedTokens: sdk.NewInt(tok), OutputAddress: outAddr}
+			if (mode == "c23" || mode == "all") && r.Chance(1, 2) {
+				// a record that already names reward delegators: delegator edits derived from a stored map are
+				// possible from the first modern block on
+				v.RewardDelegators = map[string]uint32{strings.ToLower(h.outs[2].Addr.String()): uint32(1 + r.Intn(40))}
+				if r.Chance(1, 2) {
+					v.RewardDelegators[strings.ToLower(h.outs[3].Addr.String())] = uint32(1 + r.Intn(40))
+				}
+			}
 			if r.Chance(1, 10) {
 				v.Jailed = true
 			}
